@@ -1,7 +1,7 @@
 (* C06 (field keys): the schema's alias resolution (K6A, translated from
    jsonschema/schema.py:Instance.alias) equals the serializer's (K4, translated from
-   builder.py:__get_field_alias) -- metadata alias, then Config.aliases, then the name --
-   whenever no Annotated Alias decides; with an Annotated Alias it does not (known finding). *)
+   builder.py:__get_field_alias) for all three alias sources: field metadata, then the last
+   Annotated Alias, then Config.aliases, then the name. *)
 From Coq Require Import List String ZArith Bool.
 From Verif Require Import PyK PyK_alias KeyModel KeyImpl KeyProofs K6AProofs.
 From VerifGen Require Import K4 K6A.
@@ -9,29 +9,26 @@ Import ListNotations.
 Open Scope string_scope.
 
 Theorem C06_schema_alias_spec :
-  forall (fname: string) (md: kv) (m: option string) (al: list (string * string)),
+  forall (fname: string) (md: kv) (m: option string) (l: list ann) (al: list (string * string)),
     k_dict_get md (KStr "alias") = Ok (enc_ostr m) ->
-    schema_alias md (enc_aliases al) (KStr fname) = Ok (KStr (key_of (orelse m (assoc al fname)) fname)).
+    schema_alias md (KTuple (map enc_ann l)) (enc_aliases al) (KStr fname)
+    = Ok (KStr (key_of (orelse m (orelse (last_alias l) (assoc al fname))) fname)).
 Proof. exact schema_alias_spec_thm. Qed.
 Print Assumptions C06_schema_alias_spec.
 
-Theorem C06_alias_agrees_partial :
+Theorem C06_alias_agrees :
   forall (fname: string) (md anns: kv) (m: option string) (isann: bool) (l: list ann) (al: list (string * string)),
     k_dict_get md (KStr "alias") = Ok (enc_ostr m) ->
     (isann = true -> anns = KTuple (map enc_ann l)) ->
-    (m <> None \/ isann = false \/ last_alias l = None) ->
     exists a, get_field_alias (KStr fname) md (KBool isann) anns (enc_aliases al) = Ok (enc_ostr a)
-              /\ schema_alias md (enc_aliases al) (KStr fname) = Ok (KStr (key_of a fname)).
+              /\ schema_alias md (KTuple (map enc_ann (if isann then l else []))) (enc_aliases al) (KStr fname)
+                 = Ok (KStr (key_of a fname)).
 Proof. exact alias_agrees_thm. Qed.
-Print Assumptions C06_alias_agrees_partial.
+Print Assumptions C06_alias_agrees.
 
-Theorem C06_annotated_alias_refuted :
-  get_field_alias (KStr "x") (KDict []) (KBool true) (KTuple [enc_ann (AAlias "ann_x")]) (enc_aliases []) = Ok (KStr "ann_x")
-  /\ schema_alias (KDict []) (enc_aliases []) (KStr "x") = Ok (KStr "x").
-Proof. exact annotated_alias_refuted_thm. Qed.
-Print Assumptions C06_annotated_alias_refuted.
-
-(* non-vacuity: metadata alias and Config.aliases both set, with different values *)
+(* non-vacuity: all three sources set with different values; and the Annotated Alias deciding *)
 Example C06_alias_nonvacuous :
-  schema_alias (KDict [(KStr "alias", KStr "meta_y")]) (enc_aliases [("y", "cfg_y")]) (KStr "y") = Ok (KStr "meta_y").
-Proof. reflexivity. Qed.
+  schema_alias (KDict [(KStr "alias", KStr "meta_y")]) (KTuple [enc_ann (AAlias "ann_y")]) (enc_aliases [("y", "cfg_y")]) (KStr "y") = Ok (KStr "meta_y")
+  /\ schema_alias (KDict []) (KTuple [enc_ann AOther; enc_ann (AAlias "ann_y")]) (enc_aliases [("y", "cfg_y")]) (KStr "y") = Ok (KStr "ann_y")
+  /\ schema_alias (KDict []) (KTuple [enc_ann AOther]) (enc_aliases [("y", "cfg_y")]) (KStr "y") = Ok (KStr "cfg_y").
+Proof. repeat split; reflexivity. Qed.
